@@ -50,4 +50,58 @@ var Props = map[string]*PropCfg{
 		MasksPer:  map[string]int{"quick": 2, "thorough": 4},
 		Assume:    codecAssume, RealStub: stdRealStub(),
 	},
+	"C04": {
+		ID: "C04", Level: "exploration", Evolve: true,
+		Rule: "one evaluation = one scenario in which a sender built from schema version v2 (messages extended with fresh higher indices and/or still sending fields the reader deprecates) talks to a receiver built from v1, for every encoder x {UnmarshalBebop, DecodeBebop, Make, MakeFromBytes, MustUnmarshalBebop}, the evolved message planted at top level, as struct field, array element, map value, message field and union branch, each followed by a sentinel field, plus a two-record stream history; " +
+			"distinct_nontrivial counts distinct (record shape, decoder) pairs among evaluations whose value actually carried fields unknown to the reader",
+		RandProgs: map[string]int{"quick": 14, "thorough": 60},
+		Runs:      map[string]int{"quick": 30000, "thorough": 300000},
+		MasksPer:  map[string]int{"quick": 2, "thorough": 3},
+		Assume:    codecAssume, RealStub: stdRealStub(),
+	},
+	"C05": {
+		ID: "C05", Level: "exploration", Evolve: true,
+		Rule: "one evaluation = one history of 1-6 records (same or mixed types, optionally read by an older-schema peer) written back-to-back with EncodeBebop and followed by guard bytes, decoded in order from one simulated link under one chunk schedule and reader kind; per history the all-at-once, 1-byte, boundary-straddling and boundary-aligned schedules are always run and two more are drawn; after every DecodeBebop the link position must equal the record boundary; " +
+			"distinct_nontrivial counts distinct (history length, schedule family, reader kind, first record kind, old-reader?) tuples",
+		RandProgs: map[string]int{"quick": 14, "thorough": 60},
+		Runs:      map[string]int{"quick": 30000, "thorough": 300000},
+		MasksPer:  map[string]int{"quick": 2, "thorough": 3},
+		Assume:    codecAssume, RealStub: stdRealStub(),
+	},
+	"C06": {
+		ID: "C06", Level: "fault_enumeration",
+		Rule: "per sampled (program, value): EVERY cut point 0<=k<len of the reference encoding (all of them up to 4096 bytes; structural boundaries +-1 and 64 samples beyond) x {UnmarshalBebop on an exact-capacity guard-paged slice, DecodeBebop all-at-once + EOF, DecodeBebop under a drawn chunk schedule and reader kind + EOF/ErrUnexpectedEOF, MakeFromBytes every 7th}; oracle: non-nil error, no panic, allocation and step budgets relative to the full valid length; " +
+			"distinct_nontrivial counts distinct (record shape, element kind the cut landed on, decoder variant) triples",
+		RandProgs: map[string]int{"quick": 14, "thorough": 60},
+		Runs:      map[string]int{"quick": 1600, "thorough": 20000},
+		MasksPer:  map[string]int{"quick": 2, "thorough": 3},
+		Assume:    append(append([]string{}, codecAssume...), "arrays/maps whose element can occupy zero bytes on the wire (empty structs) are excluded from C06/C07/C08 populations: for those a large count is a valid encoding"), RealStub: stdRealStub(),
+	},
+	"C07": {
+		ID: "C07", Level: "exploration",
+		Rule: "one evaluation = one corrupted or unstructured byte string given to UnmarshalBebop / DecodeBebop (drawn chunk schedule, reader kind) / MakeFromBytes; corruptions are structure-aware via the reference offset map (count/length/body-length inflation to 2^16..2^32-1 and +-1, index/discriminator/terminator rewrites, bit flips, noise ranges, span delete/duplicate/swap, foreign-record splice, truncate-and-pad) plus random and constant strings; oracle: returns (nil or error), no panic, allocation and step budgets relative to the bytes given; " +
+			"distinct_nontrivial counts distinct (record shape, mutation class, decoder) triples",
+		RandProgs: map[string]int{"quick": 14, "thorough": 60},
+		Runs:      map[string]int{"quick": 6000, "thorough": 80000},
+		MasksPer:  map[string]int{"quick": 2, "thorough": 3},
+		Assume:    append(append([]string{}, codecAssume...), "MustUnmarshalBebop is exempt (documented unchecked variant)"), RealStub: stdRealStub(),
+	},
+	"C08": {
+		ID: "C08", Level: "fault_enumeration", Evolve: true,
+		Rule: "per sampled (program, value): the fault-free run gives W Write calls and B bytes; then EVERY Write call k<W is failed (bare and partial/transient, error value from a menu of 5) plus 8 byte offsets, and EVERY read offset k<B (all up to 2048; boundaries +-1 and samples beyond) is failed bare, with partial data under a drawn chunk schedule, and transiently; oracle: an error returned to the code => non-nil result, no panic, budgets; nil from EncodeBebop => bytes == MarshalBebop; " +
+			"distinct_nontrivial counts distinct (record shape, fault kind, error value or element kind) triples among faults that actually fired",
+		RandProgs: map[string]int{"quick": 14, "thorough": 60},
+		Runs:      map[string]int{"quick": 1600, "thorough": 20000},
+		MasksPer:  map[string]int{"quick": 2, "thorough": 3},
+		Assume:    codecAssume, RealStub: stdRealStub(),
+	},
+	"C09": {
+		ID: "C09", Level: "exploration",
+		Rule: "one evaluation = one scenario with a sender built under option mask X and a receiver under mask Y != X of the same schema: bytes from X must equal bytes from Y (every encoder, same imposed map order) and Y must decode X's bytes to the value (every decoder incl. MustUnmarshalBebop where generated, stream paths under drawn schedules); " +
+			"distinct_nontrivial counts distinct (record shape, option difference X xor Y, decoder/encoder) triples",
+		RandProgs: map[string]int{"quick": 10, "thorough": 40},
+		Runs:      map[string]int{"quick": 20000, "thorough": 200000},
+		MasksPer:  map[string]int{"quick": 4, "thorough": 32},
+		Assume:    codecAssume, RealStub: stdRealStub(),
+	},
 }
